@@ -7,7 +7,7 @@ import treeutil as tu
 from common import time_limit, Timeout
 
 ID = "C03"
-GEN_DEPENDS = []
+GEN_DEPENDS = ["C03Guards"]   # decision kernels of the anchored routines, regenerated from the source (harness/gen/c03guards.py)
 RULE = ("histories of public mutators of Tree/Node/Edge (random, <= 30 ops, trees of 1-10 leaves with unary nodes, polytomies, "
         "None/zero/dyadic lengths, all three rooting states; thorough adds every depth-1 history with every flag setting and "
         "every depth-2 history from every tree of <= 4 leaves); after EVERY step: literal arborescence walk, leaf-taxon "
@@ -18,11 +18,20 @@ MODELLED_NOT_VERIFIED = [
     "statement does not fix it (by design: a wrong insert position is a book-keeping slip; a deliberate reordering in /repo "
     "needs a model update). Edge lengths are compared too, but a difference in lengths ALONE is only counted "
     "(model_differs_in_lengths_only:*), never reported - the statement does not speak of lengths",
-    "C03: Model/C03Heap.lean (pointer primitives as written) is tied to Node/Edge by the `heap` comparison of parent pointers and "
-    "child lists; the reseed chain is compared with Tree.reseed_at itself (all clean-up switched off)",
+    "C03: Model/C03Heap.lean (pointer primitives as written) is tied to Node/Edge by the `heap` comparison: the shape read back "
+    "from the top-most ancestor AND the parent pointer and child list of EVERY node of the case, detached ones included (what "
+    "remove_child leaves in the removed node, Edge.collapse in the dissolved one, the emptied child list of a suppressed node); "
+    "the reseed chain is compared with Tree.reseed_at itself (all clean-up switched off)",
+    "C03: Gen/C03Guards.lean (decision kernels of collapse_unweighted_edges, reseed_at / encode_bipartitions guards, "
+    "collapse_basal_bifurcation, remove_child(suppress), suppress_unifurcations, resolve_polytomies; defaults) is regenerated from "
+    "the source on every run by harness/gen/c03guards.py (trusted: its atom table - which sub-expression is which atom); the "
+    "gen_* theorems tie each kernel to the model",
     "C03: `step` refuses (bad-input) operations naming nodes that are not in the tree or breaking the harness's issuing "
     "preconditions (e.g. parent setter into the node's own subtree, resolve limit < 2); those branches make no claim about the code",
-    "C03: resolve_polytomies(rng=...), reroot_at_midpoint and the pointer state of detached nodes are checked by the oracle only (no model)",
+    "C03: resolve_polytomies(rng=<scripted rng>) IS modelled (Op.resolveRng: rng.sample = successive draws `script value % len(pool)` "
+    "without replacement, rng.choice = seq[script value % len(seq)], exhausted script = 0; class ResolveRng below is that rng) and "
+    "compared node for node; with a real random.Random (op resolve_rng_real) it is checked by the oracle only, as are "
+    "reroot_at_midpoint and the pointer state of detached nodes (no model)",
     "C03: the structures a history detaches (removed subtree, what `tree.seed_node = node` leaves behind, a second Tree built "
     "from a clade) are judged by the oracle as arborescences of their own that share no node with the tree; the model carries only the tree",
     "C03: node annotations, comments, labels and Edge objects' own attributes are carried opaquely; add_child of a node that is "
@@ -30,7 +39,8 @@ MODELLED_NOT_VERIFIED = [
     "C03: clause (c) (update_bipartitions leaves a fresh encoding) is decided by the from-scratch oracle only; the Lean model carries "
     "the restructuring done by encode_bipartitions, not the masks (those are C01's)",
 ]
-EXPLANATION = ("Theorems (Props/C03.lean, no sorry/axioms): step_wf / history_wf - every operation of the 30-constructor alphabet "
+EXPLANATION = ("Theorems (Props/C03.lean, no sorry/axioms): step_wf / history_wf - every operation of the 31-constructor alphabet "
+               "(incl. resolve_polytomies under ANY scripted rng: Op.resolveRng, all four step theorems at full strength) "
                "and every finite history keeps the rose tree free of shared nodes (nothing more: retention and gain are separate "
                "theorems); step_keeps_leaves / history_keeps_leaves - NOTHING LOST: for every operation except shuffle_taxa, on a "
                "tree without shared nodes a taxon-bearing leaf not asked to be removed (nor given a child) stays a leaf, same "
@@ -39,20 +49,33 @@ EXPLANATION = ("Theorems (Props/C03.lean, no sorry/axioms): step_wf / history_wf
                "nodes the operation created (without that scope the clause is false in model and library alike: an emptied "
                "taxon-bearing internal node is a new taxon-bearing leaf); shuffle_keeps_leaf_taxa - a permutation; "
                "suppress_keeps_leaf_taxa; heap layer: ofTree_repr, removeChild_repr/_frame/_refines, addChild_repr, "
-               "insertChild_repr, addChild_refines (add_child / insert_child of a NEW childless node only), reseedChain_refines (the "
+               "insertChild_repr, addChild_refines (add_child / insert_child of a NEW childless node only), addChild_subtree_repr, "
+               "removeChild_detached_repr (the removed subtree is represented on its own, parentless), setParent_repr/_refines (the "
+               "parent_node setter as written refines `step`), edgeCollapse_repr/_refines/_error_refines (Edge.collapse as written; "
+               "completes / raises together with `step`), collapseBasal_repr/_refines (collapse_basal_bifurcation = that one "
+               "Edge.collapse), edgeInvert_repr (Edge.invert at the seed) and edgeInvert_inner_breaks (anywhere else the routine "
+               "leaves no tree - why only reseed_at's chain may use it), removeChildSuppress_refines/_step_refines (the "
+               "suppress_unifurcations branch of remove_child, non-root and root case, end to end), removeChild_error_refines (where "
+               "`step` answers ValueError the pointer routine raises before touching a pointer), insertMove_refines (insert_child of "
+               "a node that already is a child), repr_is_arborescence (what Repr + no sharing says on the pointers alone: clause (a) "
+               "literally), reseedAt_collapse_refines (reseed_at with suppress_unifurcations=False: chain, then the guarded basal "
+               "collapse), reseedChain_refines (the "
                "edge-inversion chain of reseed_at as written represents the tree-level re-seeding before clean-up; "
-               "reseedAt_refines_partial = the same for reseed_at with both clean-up flags off); polytomize_fixpoint, "
+               "reseedAt_refines_partial = the same for reseed_at with both clean-up flags off); tie (A): gen_* (15 theorems: the "
+               "decision kernels regenerated from the source are the model's); polytomize_fixpoint, "
                "dropLeavesFix_fixpoint, filterLoop_fixpoint, pruneUp_fuel_suffices (fuel of every bounded loop suffices). Not "
-               "proved, only modelled and compared with the code every run: heap refinement of remove_child(suppress)/parent "
-               "setter/Edge.collapse, of the pointer-level clean-up after the inversion chain, and of add/insert of an existing "
-               "or re-attached node; the error clause (the model has no partially "
-               "mutated states: judged by the oracle after every raise); clause (c) (oracle only). The driver runs `step` per "
+               "proved, only modelled and compared with the code every run: the pointer-level suppress_unifurcations loop and the "
+               "leaf-target clean-up after the inversion chain (so reseedAt_refines_partial / reseedAt_collapse_refines stop at "
+               "suppress_unifurcations=False); the error clause in general (the model has no "
+               "partially mutated states: judged by the oracle after every raise); clause (c) (oracle only); reroot_at_midpoint and "
+               "resolve_polytomies with a real random.Random (oracle only). The driver runs `step` per "
                "operation and `run` on whole histories without node-creating operations.")
 
 DOC_ERRORS = ("ValueError", "TypeError", "SeedNodeDeletionException")
 FLAG_OPS_UB = {"reseed", "rerootnode", "rerootedge", "outgroup", "suppress", "collapseunweighted", "resolve", "resolve_rng",
+               "resolve_rng_real",
                "prunesubtree", "filterleaves", "prunenotaxa", "prunetaxa", "retaintaxa", "reorient", "midpoint"}
-NO_MODEL = {"resolve_rng", "midpoint"}
+NO_MODEL = {"resolve_rng_real", "midpoint"}
 HUNG = set()          # operations that ran into the time limit
 MAX_FAILURES = 60     # enough to report; the search stops there
 HANG_S = 20           # far above any legitimate run time (operations on these trees take well under a millisecond)
@@ -119,6 +142,26 @@ class ScriptRng(object):
     def randrange(self, n):
         r = self.rs.pop(0) if self.rs else 0
         return r % n
+
+
+class ResolveRng(object):
+    """scripted random source handed to resolve_polytomies(rng=...); exactly the rng of the Lean model (`sampleS`, `attachLoop`
+    in Model/C03.lean): the script is consumed left to right over the whole call, an exhausted script yields 0;
+    sample(pop, k) = k successive draws without replacement, a draw removes pool[r % len(pool)] from the shrinking pool
+    (result in draw order); choice(seq) = seq[r % len(seq)]"""
+
+    def __init__(self, script):
+        self.script = list(script)
+
+    def _next(self):
+        return self.script.pop(0) if self.script else 0
+
+    def sample(self, pop, k):
+        pool = list(pop)
+        return [pool.pop(self._next() % len(pool)) for _ in range(k)]
+
+    def choice(self, seq):
+        return seq[self._next() % len(seq)]
 
 
 def L(x):
@@ -281,7 +324,16 @@ def candidates(world, snap, rng, full=False, cats=None):
             for f in flagsets(rng, ["ub"], full):
                 ops.append(dict(op="resolve", lim=lim, **f))
     if want("resolve_rng"):
-        ops.append(dict(op="resolve_rng", lim=2, seed=rng.randrange(10 ** 6), ub=rng.randint(0, 1)))
+        # scripted rng (modelled): at most 2 script values per child of a polytomy are consumed; shorter scripts run dry (= 0)
+        for lim in ([2, 3] if full else [rng.choice([2, 2, 3])]):
+            for f in flagsets(rng, ["ub"], full):
+                scripts = [[rng.randrange(1000) for _ in range(rng.randint(0, 2 * n + 2))]]
+                if full:
+                    scripts.append([])
+                for sc in scripts:
+                    ops.append(dict(op="resolve_rng", lim=lim, script=sc, **f))
+    if want("resolve_rng_real"):
+        ops.append(dict(op="resolve_rng_real", lim=rng.choice([2, 2, 3]), seed=rng.randrange(10 ** 6), ub=rng.randint(0, 1)))
     if want("prunesubtree"):
         for c in pick(nonroot):
             for f in flagsets(rng, ["ub", "s"], full):
@@ -399,6 +451,8 @@ def to_line(snap, op):
         return head + "collapseunweighted %s %d %s" % (op["thr"], op["ub"], t)
     if o == "resolve":
         return head + "resolve %d %d %s" % (op["lim"], op["ub"], t)
+    if o == "resolve_rng":
+        return head + "resolverng %d %d %s %s" % (op["lim"], op["ub"], lst(op["script"]), t)
     if o == "prunesubtree":
         return head + "prunesubtree %d %d %d %s" % (op["c"], op["ub"], op["s"], t)
     if o == "filterleaves":
@@ -478,6 +532,8 @@ def execute(world, snap, op):
     elif o == "resolve":
         tree.resolve_polytomies(limit=op["lim"], update_bipartitions=b("ub"))
     elif o == "resolve_rng":
+        tree.resolve_polytomies(limit=op["lim"], update_bipartitions=b("ub"), rng=ResolveRng(op["script"]))
+    elif o == "resolve_rng_real":
         tree.resolve_polytomies(limit=op["lim"], update_bipartitions=b("ub"), rng=random.Random(op["seed"]))
     elif o == "prunesubtree":
         tree.prune_subtree(N(op["c"]), update_bipartitions=b("ub"), suppress_unifurcations=b("s"))
@@ -939,6 +995,7 @@ def heap_run(dendropy, hp):
     N = ids.node
     top_from = tree.seed_node
     prim = hp["prim"]
+    new = None
     t = " ".join(toks)
     err = False
     try:
@@ -984,7 +1041,22 @@ def heap_run(dendropy, hp):
     while x._parent_node is not None and k < nn + 3:
         x = x._parent_node
         k += 1
-    return line, "ok " + shape_text(x, idmap)
+    # intermediate observables: the parent pointer and child list of EVERY node the case knows (ids 0 … nn; nn = the new
+    # node of add/insert, otherwise unused), detached ones included - what remove_child leaves in the removed node, what
+    # Edge.collapse leaves in the dissolved one, the emptied child list of a suppressed node
+    by_id = {v: None for v in idmap.values()}
+    for nd in list(ids.keep) + ([new] if prim in ("add", "insert") else []):
+        by_id[idmap[id(nd)]] = nd
+    cells = []
+    for i in range(nn + 1):
+        nd = by_id.get(i)
+        if nd is None:
+            cells.append("%d:-:-" % i)
+            continue
+        par = nd._parent_node
+        cells.append("%d:%s:%s" % (i, "-" if par is None else idmap.get(id(par), "?"),
+                                   ",".join(str(idmap.get(id(c), "?")) for c in nd._child_nodes) or "-"))
+    return line, "ok " + shape_text(x, idmap) + " | " + " ".join(cells)
 
 
 def heap_cases(ctx, dendropy, rng, pending_heap, count):
@@ -1036,12 +1108,14 @@ def shape_to_start(dendropy, rng, shape, n, rooted, lengths="dyadic", blank_leaf
 
 CATS = ["remove", "newchild", "insertnew", "addsub", "insertsub", "insertmove", "setparent", "edgecollapse", "collapseclade",
         "reseed", "reseed", "reseed_leaf", "rerootnode", "rerootedge", "outgroup", "outgroup", "suppress", "collapsebasal",
-        "polytomize", "collapseunweighted", "collapseunweighted", "resolve", "resolve_rng", "prunesubtree", "filterleaves",
+        "polytomize", "collapseunweighted", "collapseunweighted", "resolve", "resolve_rng", "resolve_rng", "resolve_rng_real",
+        "prunesubtree", "filterleaves",
         "prunenotaxa", "prunetaxa", "retaintaxa", "ladderize", "reorder", "rotate", "shuffle", "encode", "reorient", "midpoint",
         "setseed", "newtree", "addsub", "errors"]
 
 
-NOCOMPOSE = {"newtree", "newchild", "insertnew", "addsub", "insertsub", "rerootedge", "resolve", "resolve_rng", "midpoint"}
+NOCOMPOSE = {"newtree", "newchild", "insertnew", "addsub", "insertsub", "rerootedge", "resolve", "resolve_rng", "resolve_rng_real",
+             "midpoint"}
 
 
 NODE_FIELDS = {"setseed": ("n",), "remove": ("p", "c"), "insertmove": ("p", "c"), "setparent": ("c", "q"), "edgecollapse": ("c",),
@@ -1233,6 +1307,80 @@ def construction_ok(ctx, dendropy, shapes=None):
     return ok
 
 
+# ----------------------------------------------------------------------------------------------- tie (A): targeted search
+# bridge theorem (Props/C03.lean, `gen_*`) / generator message -> operation categories that exercise that kernel
+GEN_MECHANISMS = [
+    (("gen_collapsePred", "gen_defaultThreshold", "gen_edgePredicates", "collapse_unweighted_edges", "Edge.is_"),
+     ["collapseunweighted"]),
+    (("gen_encodeCollapseGuard", "gen_reseedCollapseGuard", "reseed_at", "encode_bipartitions"),
+     ["reseed", "reseed_leaf", "rerootnode", "encode", "outgroup"]),
+    (("gen_basalChoice", "collapse_basal_bifurcation"), ["collapsebasal", "encode", "reseed", "outgroup"]),
+    (("gen_removeUnaryCount", "gen_removeRootChoice", "gen_nodePredicates", "remove_child", "Node.is_"), ["remove"]),
+    (("gen_supCount", "gen_encodeSupGuard", "suppress_unifurcations"), ["suppress", "encode", "reseed", "rerootnode"]),
+    (("gen_resolveGuard", "gen_defaultLimit", "resolve_polytomies"), ["resolve"]),
+]
+GEN_SEARCH_CATS = ["collapseunweighted", "reseed", "reseed_leaf", "rerootnode", "encode", "collapsebasal", "remove", "suppress",
+                   "resolve", "outgroup"]
+GEN_SEARCH_S = 40
+
+
+def search(ctx, broken):
+    """tie (A) broke (Gen/C03Guards.lean could not be regenerated, or a `gen_*` bridge theorem no longer holds for the
+    regenerated kernels) or model and code disagree: look for a concrete input on which the REAL code contradicts the
+    statement, in the mechanisms concerned first.  Every depth-1 history of the categories above, every target and flag
+    combination, from every tree shape of <= 4 leaves (plus the unary-decorated ones of `exhaustive`), all three rooting
+    states, lengths none / dyadic / zeros; judged by the normal oracle (`do_step` -> `ctx.fail`), compared with the model."""
+    import time
+    texts = []
+    for o in broken:
+        name = str(o.get("name", ""))
+        if o.get("kind") == "generation" and "C03Guards" in name:
+            texts.append(name + " " + str(o.get("detail", "")))
+        elif ".gen_" in name:
+            texts.append(name)
+    if not texts and not ctx.disagreements:
+        return
+    first = []
+    for keys, cats in GEN_MECHANISMS:
+        if any(k in t for k in keys for t in texts):
+            first += [c for c in cats if c not in first]
+    for d in ctx.disagreements:
+        c = str(d.get("op", "")).replace("step ", "")
+        if c in GEN_SEARCH_CATS and c not in first:
+            first.append(c)
+    rounds = [first, [c for c in GEN_SEARCH_CATS if c not in first]]
+    dendropy = __import__("dendropy")
+    rng = ctx.rng
+    shapes = [(sh, n) for n in range(1, 5) for sh in tu.all_shapes(n)]
+    shapes += [([[]], 1), ([[[]]], 1), ([[[], []]], 2), ([[[]], []], 2), ([[[], []], [[]]], 3), ([[[[], []], []]], 3),
+               ([[], [[[], []]]], 3)]
+    t_end = time.time() + GEN_SEARCH_S
+    pending = []
+    done = [0]
+
+    def sweep(cats):
+        for sh, n in shapes:
+            for rooted in ("R", "U", "N"):
+                for lengths in ("none", "dyadic", "zeros"):
+                    start = shape_to_start(dendropy, rng, sh, n, rooted, lengths=lengths)
+                    w0 = World(dendropy, start["tree"], rooted, None, start["nbits"])
+                    for op1 in candidates(w0, Snap(w0), rng, full=True, cats=set(cats)):
+                        if time.time() > t_end or len(ctx.failures) >= MAX_FAILURES:
+                            return False
+                        if op1["op"] in HUNG:
+                            continue
+                        run_history(ctx, dendropy, dict(start, ops=[op1]), pending, single_check=True)
+                        done[0] += 1
+                        if len(pending) >= 3000:
+                            flush(ctx, pending)
+        return True
+    complete = all(sweep(cats) for cats in rounds if cats)
+    flush(ctx, pending)
+    ctx.extra["gen_search"] = ("%d depth-1 histories of %s (mechanisms concerned first: %s) on %d tree shapes x R/U/N x "
+                               "none/dyadic/zeros lengths; %s" % (done[0], "/".join(GEN_SEARCH_CATS), ",".join(first) or "-", len(shapes),
+                                                                 "complete" if complete else "cut off by the time/failure limit"))
+
+
 def run(ctx):
     dendropy = __import__("dendropy")
     rng = ctx.rng
@@ -1278,6 +1426,7 @@ _BAL = _t([-1, 0, 1, 1, 0, 4, 4], [None, None, 0, 1, None, 2, 3])
 _BALW = _t([-1, 0, 1, 1, 0, 4, 4], [None, None, 0, 1, None, 2, 3], ["N", "1", "2", "3", "0", "5", "6"])
 _UNARY_SEED = _t([-1, 0, 1, 1], [None, None, 0, 1])          # ((A,B))
 _SINGLE = _t([-1], [0])
+_STAR5 = _t([-1, 0, 0, 0, 0, 0], [None, 0, 1, 2, 3, 4])       # (A,B,C,D,E)
 CORNER_CASES = [
     {"tree": _BAL, "rooted": "U", "ops": [dict(op="outgroup", n=4, ub=0, s=1)]},
     {"tree": _BAL, "rooted": "U", "ops": [dict(op="outgroup", n=1, ub=1, s=1)]},
@@ -1289,6 +1438,12 @@ CORNER_CASES = [
     {"tree": _BALW, "rooted": "U", "ops": [dict(op="reseed", n=4, ub=1, c=1, s=1), dict(op="reseed", n=0, ub=0, c=0, s=0)]},
     {"tree": _BALW, "rooted": "N", "ops": [dict(op="remove", p=1, c=2, s=1), dict(op="addsub", p=0)]},
     {"tree": _BALW, "rooted": "R", "ops": [dict(op="remove", p=0, c=4, s=1)]},
+    # resolve_polytomies(rng=scripted) on a star: limit 2 (3 draws, then joins at the node, at a kept child, at a new node, at an
+    # attached child) and limit 3; a script that runs dry
+    {"tree": _STAR5, "rooted": "U", "ops": [dict(op="resolve_rng", lim=2, ub=0, script=[1, 3, 0, 2, 0, 3])]},
+    {"tree": _STAR5, "rooted": "R", "ops": [dict(op="resolve_rng", lim=2, ub=1, script=[4, 0, 1, 1, 4, 6])]},
+    {"tree": _STAR5, "rooted": "U", "ops": [dict(op="resolve_rng", lim=3, ub=0, script=[2, 2, 3, 0])]},
+    {"tree": _STAR5, "rooted": "N", "ops": [dict(op="resolve_rng", lim=3, ub=1, script=[7])]},
 ]
 
 
